@@ -433,7 +433,9 @@ def run(harness, args, workdir, timeout=900, forced_enosys=False):
     open(marks, "w").close()
     os.chmod(marks, 0o666)
     env = dict(os.environ, VERIF_STRACE_MARK=marks)
-    cmd = ["strace", "-f", "-qq", "-X", "raw", "-xx", "-s", "70000", "-o", st, harness] + args
+    jail = [os.path.join(os.path.dirname(os.path.abspath(__file__)), "jail.sh"),
+            os.path.join(os.path.dirname(os.path.dirname(os.path.abspath(__file__))), ".cache")]
+    cmd = jail + ["strace", "-f", "-qq", "-X", "raw", "-xx", "-s", "70000", "-o", st, harness] + args
     p = subprocess.run(cmd, env=env, stdout=subprocess.DEVNULL, stderr=subprocess.PIPE, timeout=timeout)
     res = {"cmd": " ".join(cmd), "rc": p.returncode, "windows": 0, "syscalls": 0, "recorded_calls": 0, "mismatches": []}
     if p.returncode != 0:
